@@ -13,7 +13,7 @@ from ..core import Run
 from ..pool import run_ops
 from ..tlc import read_export, run_tlc, validate_traces
 
-ALL = set(range(1, 67))
+ALL = set(range(1, 72))
 XSH = {1, 4, 13, 17, 18, 20, 23, 25, 26, 27, 28, 29, 30, 39, 40, 45, 46, 47, 48, 49, 50, 52, 53, 56, 58}
 TIERS = {"quick": [(ALL, 2), (XSH, 3)], "thorough": [(ALL, 3), (XSH, 4)]}
 
